@@ -14,6 +14,9 @@
   atom `y` (`trace_matches_built_graph`, builder / trace lock-step over the same events).
   The complete trace dump of the real `Trace` is still compared with the model's on every run.
 -/
+import Purr.Lemmas.TraceIdxL
+import Purr.Lemmas.TraceEndsL
+import Purr.Props.C02
 import Purr.Lemmas.TraceL
 import Purr.Lemmas.ProtoL
 import Purr.Lemmas.TraceBondL
@@ -93,6 +96,73 @@ theorem trace_rnum_is_token (s : Str) (t : TState) (ht : trace? s = some t) (k :
   refine ⟨by omega, by omega, r, ?_⟩
   rw [← hxa, ← hye, hx.eq_drop, hys.eq_drop]; exact hr
 
+/-! ### the index side: entry i is atom i's own token, entry k is the k-th ring-closure token -/
+
+theorem erase_readL (s : Str) : (readL s).1.map LEvent.erase = (read s).1 := by
+  have := runL_erase .needRoot [0] s
+  exact congrArg Prod.fst this
+
+/-- ATOM i MAPS TO ITS OWN TOKEN: entry `i` of the atom table is the range of the token of the `i`-th atom the reader
+    reported (`writtenAtoms`), that token reads as exactly the kind reported, and atom `i` of the built graph carries
+    that kind (with the `@`/`@@` mark of a non-root atom that has a hydrogen adjusted, the convention of C03) -/
+theorem trace_atom_is_its_token (s : Str) (t : TState) (ht : trace? s = some t) (i : Nat) (a b : Nat)
+    (hi : t.atom i = some (a, b)) :
+    ∃ isRoot k, (writtenAtoms (read s).1)[i]? = some (isRoot, k) ∧ readAtom (s.drop a) = .ok k (s.drop b) ∧
+      ∀ g, build? (read s).1 = some (.ok g) → (g[i]?).map Atom.kind = some (if isRoot then k else k.invert) := by
+  unfold trace? at ht
+  obtain ⟨hat, _⟩ := trun_atoms s.length _ _ _ ht
+  simp only [TState.init, List.nil_append] at hat
+  unfold TState.atom at hi
+  rw [hat, atomSpans_eq, List.getElem?_map] at hi
+  cases hp : (atomToks (readL s).1)[i]? with
+  | none => rw [hp] at hi; cases hi
+  | some p =>
+    rw [hp] at hi
+    simp only [Option.map_some, Option.some.injEq, Prod.mk.injEq] at hi
+    obtain ⟨ha, hb⟩ := hi
+    have hmem : p ∈ atomToks (readL s).1 := List.mem_of_getElem? hp
+    have hspan : ∃ x y, Suffix x s ∧ x.length = p.2.2.1 ∧ y.length = p.2.2.2 ∧ readAtom x = .ok p.2.1 y := by
+      rcases atomToks_mem hmem with ⟨ev, hev, rfl⟩ | ⟨bk, ev, hev, rfl⟩
+      · exact runL_spans .needRoot [0] s _ hev
+      · exact runL_spans .needRoot [0] s _ hev
+    obtain ⟨x, y, hx, hxa, hye, hr⟩ := hspan
+    have hys : Suffix y s := ((readAtom_shape x).ok hr).suffix.trans hx
+    refine ⟨p.1, p.2.1, ?_, ?_, ?_⟩
+    · rw [← erase_readL, writtenAtoms_erase, List.getElem?_map, hp]; rfl
+    · rw [← ha, ← hb, ← hxa, ← hye, hx.eq_drop, hys.eq_drop]; exact hr
+    · intro g hg
+      have hk := C02.atoms_in_order _ g hg
+      have : (g.map Atom.kind)[i]? = some (if p.1 then p.2.1 else p.2.1.invert) := by
+        rw [hk, atomKinds_written, ← erase_readL, writtenAtoms_erase, List.map_map, List.getElem?_map, hp]; rfl
+      rw [List.getElem?_map] at this
+      exact this
+
+/-- THE k-TH RING-CLOSURE TOKEN: entry `k` of the ring-closure table is the range of the token of the `k`-th join the
+    reader reported, and that token reads as exactly the ring number reported -/
+theorem trace_rnum_is_its_token (s : Str) (t : TState) (ht : trace? s = some t) (k : Nat) (a b : Nat)
+    (hk : t.rnum k = some (a, b)) :
+    ∃ bk r, (writtenJoins (read s).1)[k]? = some (bk, r) ∧ readRnum (s.drop a) = .ok r (s.drop b) := by
+  unfold trace? at ht
+  obtain ⟨_, hrt⟩ := trun_atoms s.length _ _ _ ht
+  simp only [TState.init, List.nil_append] at hrt
+  unfold TState.rnum at hk
+  rw [hrt, rnumSpans_eq, List.getElem?_map] at hk
+  cases hp : (joinToks (readL s).1)[k]? with
+  | none => rw [hp] at hk; cases hk
+  | some p =>
+    rw [hp] at hk
+    simp only [Option.map_some, Option.some.injEq, Prod.mk.injEq] at hk
+    obtain ⟨ha, hb⟩ := hk
+    have hmem := joinToks_mem (List.mem_of_getElem? hp)
+    obtain ⟨w, x, y, hw, hwl, hbd, hxa, hye, hr⟩ := runL_spans .needRoot [0] s _ hmem
+    have hxw : Suffix x w := by
+      have := (readBond_consumes w).suffix; rw [hbd] at this; exact this
+    have hx : Suffix x s := hxw.trans hw
+    have hys : Suffix y s := ((readRnum_shape x).ok hr).suffix.trans hx
+    refine ⟨p.1, p.2.1, ?_, ?_⟩
+    · rw [← erase_readL, writtenJoins_erase, List.getElem?_map, hp]; rfl
+    · rw [← ha, ← hb, ← hxa, ← hye, hx.eq_drop, hys.eq_drop]; exact hr
+
 /-- every bond cursor is the position of a bond token: `s.drop c` begins with the bond symbol of kind `b` when one
     is written (`readBond` consumes it) or, when the bond is elided (`readBond` consumes nothing), directly with
     the target atom or ring-closure token -/
@@ -103,6 +173,39 @@ theorem bond_cursor_is_bond_token (s : Str) (t : TState) (ht : trace? s = some t
   have hle := hw.length_le
   refine ⟨b, w, rest, by omega, ?_, hrb, htok⟩
   rw [hc]; exact hw.eq_drop
+
+/-- EACH DIRECTION OF A BOND REPORTS ITS OWN END.  If the trace maps the bond from atom `x` to atom `y` to cursor `c`,
+    then the text at `c` is a bond token of some kind `b` (its symbol, or nothing when elided) and directly after it comes
+    * either the atom token of the later of the two atoms — the trace's own range for that atom — which the reader
+      attached with exactly that bond kind `b` (a chain or branch bond: both directions report this one place),
+    * or the `k`-th ring-closure token — the trace's own range for it — which was written while `x` was the head atom
+      and whose join event carried exactly that bond kind `b` (a ring closure: `x → y` reports `x`'s digit, `y → x`
+      reports `y`'s). -/
+theorem bond_cursor_is_own_end (s : Str) (t : TState) (ht : trace? s = some t) (x y c : Nat) (hb : t.bond x y = some c) :
+    ∃ b rest, c ≤ s.length ∧ readBond (s.drop c) = (b, rest) ∧
+      ((∃ ch q, (ch = x ∨ ch = y) ∧ x ≤ ch ∧ y ≤ ch ∧ x ≠ y ∧ t.atom ch = some (s.length - rest.length, q) ∧
+          (atomBondsE (read s).1)[ch]? = some (some b))
+       ∨ (∃ k q, t.rnum k = some (s.length - rest.length, q) ∧ (joinHeadsE [] 0 (read s).1)[k]? = some x ∧
+          ((writtenJoins (read s).1)[k]?).map (·.1) = some b)) := by
+  obtain ⟨b, rest, hle, hrb, hc⟩ := trace_bond_own_end s t ht x y c hb
+  refine ⟨b, rest, hle, hrb, ?_⟩
+  rcases hc with ⟨ch, q, h1, h2, h3, h4, h5, h6⟩ | ⟨k, q, h1, h2, h3⟩
+  · refine Or.inl ⟨ch, q, h1, h2, h3, h4, h5, ?_⟩
+    rw [← erase_readL, ← atomBonds_erase]; exact h6
+  · refine Or.inr ⟨k, q, h1, ?_, ?_⟩
+    · rw [← erase_readL, ← joinHeads_erase]; exact h2
+    · rw [← erase_readL, writtenJoins_erase, List.getElem?_map]
+      rw [List.getElem?_map] at h3
+      cases hj : (joinToks (readL s).1)[k]? with
+      | none => rw [hj] at h3; cases h3
+      | some p => rw [hj] at h3; simpa using h3
+
+/-! non-vacuity: the located events of `C1CC=1` (what `readL` produces for it): the two directions of the ring closure
+    0–2 report the cursors of their own digits (1 and, with the `=`, 4), the two directions of a chain bond the same one -/
+example : (trun 6 .init [.root (.aliphatic .C) 6 5, .join .elided ⟨1, by decide⟩ 5 5 4, .extend .elided (.aliphatic .C) 4 3,
+      .extend .elided (.aliphatic .C) 3 2, .join .double ⟨1, by decide⟩ 2 1 0]).map
+      (fun t => (t.bond 0 2, t.bond 2 0, t.bond 0 1, t.bond 1 0, t.bond 1 2)) =
+    some (some 1, some 4, some 2, some 2, some 3) := by decide
 
 /-- atom ids and bond keys of the trace are those of the graph built from the same string -/
 theorem trace_matches_built_graph (s : Str) (t : TState) (g : Graph) (ht : trace? s = some t)
